@@ -5,7 +5,9 @@ package main
 
 import (
 	"fmt"
+	"go/token"
 	"go/types"
+	"os"
 	"regexp"
 	"strings"
 
@@ -18,7 +20,7 @@ const pkgGov = "ctrlers/gov"
 const pkgProp = "ctrlers/gov/proposal"
 
 func checkC15(w *World, r *Report) {
-	r.Explanation = "Structural clause of C15 (Gv-7: no in-place 256-bit operation writes into a governance parameter object — accessors such as MinValidatorStake() hand out the stored object itself; shared with C06 X-6): (Gv-1) every success path of a proposal validation passes the guards: receiver is the zero address, sender is a current validator, payload type, no duplicate key in the exec-selected overlay, start > current height, min <= period <= max (governance limits), no overflow of start+period, applying height >= end + lazy-applying blocks, at least one option, and parseable options for parameter proposals; (Gv-2) every success path of a vote validation passes: zero receiver, payload type, the proposal exists in the exec-selected overlay, sender is one of its recorded voters, 0 <= choice < number of options, start <= height <= end; (Gv-3) a proposal's voters are the current validators with their current power, its total is their sum, majority = total x 2 / 3, end = start + period, a vote cancels the voter's previous vote before counting the new one with the recorded power; (Gv-4) a proposal leaves voting only when end < height, is frozen only if the top option (descending sort) holds at least the majority power, is applied only when applying height <= height, the winning option is merged with the current parameters, recorded and handed to Commit, which installs it; (Gv-5) MergeGovParams treats every parameter field, and the JSON/proto codecs cover every field; (Gv-6) tally integrity: votes name options by index and the winner is decided once, so GovProposal.MajorOption and the order of GovProposal.Options are written only by the constructor and by updateMajorOption, which is called only through UpdateMajorOption from the freeze scan (after the window has closed); no other function sorts or replaces elements of an option list; (Gv-8) punishment changes a proposal as the block has it so far: the object written back is the overlay's own, not a copy decoded from the committed tree, and the proposals punished are those whose voters contain the address (C01 D-6 stale-copy, C14 J-1)."
+	r.Explanation = "Structural clause of C15 (Gv-7: no in-place 256-bit operation writes into a governance parameter object — accessors such as MinValidatorStake() hand out the stored object itself; shared with C06 X-6): (Gv-1) every success path of a proposal validation passes the guards: receiver is the zero address, sender is a current validator, payload type, no duplicate key in the exec-selected overlay, start > current height, min <= period <= max (governance limits), no overflow of start+period, applying height >= end + lazy-applying blocks, at least one option, and parseable options for parameter proposals; (Gv-2) every success path of a vote validation passes: zero receiver, payload type, the proposal exists in the exec-selected overlay, sender is one of its recorded voters, 0 <= choice < number of options, start <= height <= end; (Gv-3) a proposal's voters are the current validators with their current power, its total is their sum, majority = total x 2 / 3, end = start + period, a vote cancels the voter's previous vote before counting the new one with the recorded power; (Gv-4) a proposal leaves voting only when end < height, is frozen only if the top option (descending sort) holds at least the majority power, is applied only when applying height <= height, the winning option is merged with the current parameters, recorded and handed to Commit, which installs it; (Gv-5) MergeGovParams treats every parameter field, and the JSON/proto codecs cover every field; (Gv-6) tally integrity: votes name options by index and the winner is decided once, so GovProposal.MajorOption and the order of GovProposal.Options are written only by the constructor and by updateMajorOption, which is called only through UpdateMajorOption from the freeze scan (after the window has closed); no other function sorts or replaces elements of an option list; (Gv-8) punishment changes a proposal as the block has it so far: the object written back is the overlay's own, not a copy decoded from the committed tree, and the proposals punished are those whose voters contain the address (C01 D-6 stale-copy, C14 J-1). Gv-4 also requires that the document decoded at the applying height is the winning option's own text; a rewritten text may be decoded only where the stored text is known not to parse."
 	r.NotCovered = "tallies over vote histories; two proposals applied in one block; JSON parsing details of the option documents; powerOrderVoteOptions ties (two options cannot both reach 2/3)."
 	gv12(w, r)
 	gv3(w, r)
@@ -435,6 +437,101 @@ func gv4(w *World, r *Report) {
 		r.Check(af.dueOK, "Gv-4", "apply:at-applying-height", "a frozen proposal is applied only when its applying height has been reached and it has a major option", "a frozen proposal can be applied before its applying height (or without a major option): "+af.dueWhy, fnSite(w, af.fn))
 		r.Check(af.docOK, "Gv-4", "apply:major-option-document", "the parameters applied are parsed from the winning option", "the parameters applied are not the winning option's document: "+af.docWhy, fnSite(w, af.fn))
 	}
+	// what is applied is the text that was validated: ValidateTrx parses every option
+	// as it stands (Gv-1), so the document decoded at the applying height is the
+	// winning option's bytes themselves. A rewritten text (the repair of records
+	// stored by older releases) may only be decoded where the stored text is known
+	// not to be valid JSON — such a text can not have passed validation.
+	if af := w.applyFlow(); af.fn != nil {
+		isOption := func(v ssa.Value) bool {
+			for {
+				v = stripConv(v)
+				if cv, ok := v.(*ssa.Convert); ok {
+					v = cv.X
+					continue
+				}
+				break
+			}
+			return strings.HasSuffix(w.Canon(v), "p0.MajorOption.Option()") || strings.HasSuffix(w.CanonI(v), "p0.MajorOption.Option()")
+		}
+		notValid := func(b *ssa.BasicBlock) bool {
+			// json.Valid(option) is false here, or decoding the option's own text has failed
+			if w.condHolds(b, -1, func(c ssa.Value) bool {
+				cs := w.Canon(c)
+				return strings.HasPrefix(cs, "json.Valid(") && strings.Contains(cs, "p0.MajorOption.Option()")
+			}) {
+				return true
+			}
+			return w.condHolds(b, 1, func(c ssa.Value) bool {
+				bo, ok := c.(*ssa.BinOp)
+				if !ok || bo.Op != token.NEQ {
+					return false
+				}
+				k, isK := bo.Y.(*ssa.Const)
+				call, isC := stripConv(bo.X).(*ssa.Call)
+				if !isK || !k.IsNil() || !isC || callName(call.Common()) != "Unmarshal" || len(call.Common().Args) != 2 {
+					return false
+				}
+				return isOption(call.Common().Args[0])
+			})
+		}
+		nDoc := 0
+		bad := ""
+		for _, g := range w.withModuleCallees(af.fn, 1) {
+			for _, c := range CallsIn(g) {
+				if obj := calleeObj(c.Common()); obj == nil || obj.Pkg() == nil || !strings.HasSuffix(obj.Pkg().Path(), "/json") || obj.Name() != "Unmarshal" {
+					continue
+				}
+				a := c.Common().Args
+				if len(a) != 2 || !strings.Contains(typeStr(stripConv(a[1]).Type()), "GovParams") {
+					continue
+				}
+				nDoc++
+				var leaves func(v ssa.Value, at *ssa.BasicBlock, d int)
+				leaves = func(v ssa.Value, at *ssa.BasicBlock, d int) {
+					for {
+						v = stripConv(v)
+						if cv, ok := v.(*ssa.Convert); ok {
+							v = cv.X
+							continue
+						}
+						break
+					}
+					if ph, ok := v.(*ssa.Phi); ok && d < 4 {
+						for i, e := range ph.Edges {
+							leaves(e, ph.Block().Preds[i], d+1)
+						}
+						return
+					}
+					if g != af.fn {
+						if pi := paramIndexIn(g, v); pi >= 0 {
+							for _, cs := range w.callsToFn(af.fn, g) {
+								leaves(cs.Common().Args[pi], cs.Block(), d+1)
+							}
+							return
+						}
+					}
+					if isOption(v) {
+						return
+					}
+					blk := at
+					if in, ok := v.(ssa.Instruction); ok && in.Block() != nil {
+						blk = in.Block()
+					}
+					if blk != nil && (notValid(blk) || (at != nil && notValid(at))) {
+						return
+					}
+					bad = "the document decoded at " + w.InstrPos(c) + " may be " + w.Canon(v) + ", which is not the text validation accepted"
+				}
+				leaves(a[0], c.Block(), 0)
+			}
+		}
+		if nDoc == 0 {
+			r.Undecided("Gv-4", "apply:document-as-validated", "no decoding of a parameter document found in the apply callback")
+		} else {
+			r.Check(bad == "", "Gv-4", "apply:document-as-validated", "the document decoded at the applying height is the winning option's own text (a rewritten text only where the stored text is not valid JSON)", "the text decoded at the applying height is not the text that was validated: an option accepted by ValidateTrx can fail to parse when it is applied, EndBlock returns the error and RigoApp.EndBlock panics on every node: "+bad, fnSite(w, af.fn))
+		}
+	}
 	eb := needFn(r, "Gv-4", w, fref{pkgGov, "GovCtrler", "EndBlock"})
 	if eb != nil {
 		// the helpers may take further (non-height) arguments, e.g. a collector for the events
@@ -757,6 +854,9 @@ func (w *World) applyFlow() *applyFlowVerdict {
 		if !(pos["MERGE"] < pos["SET"] && pos["SET"] < pos["STAGE"]) {
 			v.persistOK, v.persWhy = false, "the parameters are not merged, then recorded, then staged in that order"
 		}
+		if os.Getenv("RIGOCHECK_DEBUG") == "apdoc" {
+			fmt.Fprintln(os.Stderr, "APDOC", evs)
+		}
 		okDoc := false
 		for _, u := range unm {
 			parts := strings.SplitN(u, "\x01", 2)
@@ -773,4 +873,15 @@ func (w *World) applyFlow() *applyFlowVerdict {
 		v.docWhy, v.persWhy = "no path applies parameters", "no path applies parameters"
 	}
 	return v
+}
+
+// callsToFn: the call instructions in fn whose static callee is g.
+func (w *World) callsToFn(fn, g *ssa.Function) []ssa.CallInstruction {
+	var out []ssa.CallInstruction
+	for _, c := range CallsIn(fn) {
+		if c.Common().StaticCallee() == g {
+			out = append(out, c)
+		}
+	}
+	return out
 }
